@@ -18,7 +18,8 @@ MANIFEST = {
             'workflow state is the semantic verdict and the rows are EXACTLY the semantic set of (name, state, next_tasks)), hence '
             'outcome_schedule_independent_partial (two quiescent histories have equal outcomes), '
             'pause_resume_same_outcome_partial (a quiescent history with pause / resume = any quiescent history without), '
-            'outcome_schedule_independent_nopause (full strength for histories without operator commands). The two exclusions of '
+            'outcome_schedule_independent_nopause (full strength for histories without operator commands), '
+            'outcome_schedule_independent_nofail (any two histories when no plain task fails). The two exclusions of '
             'the _partial theorems are genuine defects: NoStaleRestart (outcome_schedule_independent_full_fails / '
             'pause_resume_same_outcome_full_fails: resume re-queues start_task(first_run=False) for an IDLE task; delivered after '
             'the task FAILED it runs the task again - proved witness replayed on the real engine, known finding) and PausedClean '
